@@ -705,7 +705,52 @@ const VOCAB: [&str; 28] = [
 ];
 const SEPS: [&str; 9] = [" ", " ", " ", "  ", "   ", "\n", "\n\n", "\r\n", "\n  "];
 
+/// An indented block, the shape `dedent`/`indent` (and `unfill`) are about: lines
+/// that share a margin of spaces and/or tabs, some with extra indentation, and
+/// whitespace-only lines of every kind — empty, shorter than the margin, exactly
+/// the margin, longer, or made of the other whitespace character.
+fn gen_block(rng: &mut Rng) -> String {
+    let margins = ["", "  ", "    ", "\t", "  \t", "\t  ", "        "];
+    let margin = margins[rng.below(margins.len())];
+    let extras = ["", "", "  ", "    ", "\t"];
+    let ending = if rng.chance(1, 5) { "\r\n" } else { "\n" };
+    let mut s = String::new();
+    let n = 2 + rng.below(7);
+    for i in 0..n {
+        if rng.chance(1, 3) {
+            match rng.below(5) {
+                0 => {}
+                1 => s.push_str(&margin[..margin.len() / 2]),
+                2 => s.push_str(margin),
+                3 => {
+                    s.push_str(margin);
+                    s.push_str("  ");
+                }
+                _ => s.push_str(if margin.starts_with('\t') { "    " } else { "\t" }),
+            }
+        } else {
+            s.push_str(margin);
+            s.push_str(extras[rng.below(extras.len())]);
+            s.push_str(VOCAB[rng.below(VOCAB.len())]);
+            if rng.chance(1, 3) {
+                s.push(' ');
+                s.push_str(VOCAB[rng.below(VOCAB.len())]);
+            }
+            if rng.chance(1, 6) {
+                s.push_str("  ");
+            }
+        }
+        if i + 1 < n || rng.chance(1, 2) {
+            s.push_str(ending);
+        }
+    }
+    s
+}
+
 fn gen_text(rng: &mut Rng) -> String {
+    if rng.chance(1, 5) {
+        return gen_block(rng);
+    }
     let n = rng.below(14);
     let mut s = String::new();
     if rng.chance(1, 5) {
